@@ -54,7 +54,7 @@ def main():
         res["confirmed"] = bool(ok_suite and rc_fail2 != 0 and "rc=0" in o2)
         res["confirmation_steps"] = steps
         print("confirmation:", res["confirmed"], steps)
-    for f in os.listdir(seed):
+    for f in (os.listdir(seed) if os.path.isdir(seed) else []):      # the worktree may be gone on a re-evaluation
         p = os.path.join(seed, f)
         if os.path.isfile(p) and os.path.getsize(p) < 2_000_000:
             shutil.copy(p, out)
